@@ -76,7 +76,7 @@ func genValue(t *rapid.T) string {
 	switch k {
 	case 40:
 		// a large value: several zstd blocks, a stored chunk far bigger than any reused buffer
-		return strings.Repeat("large-stored-value-", rapid.SampledFrom([]int{500, 8000}).Draw(t, "bigRep"))
+		return strings.Repeat("large-stored-value-", rapid.SampledFrom([]int{500, 8000, 60000}).Draw(t, "bigRep"))
 	case 0:
 		return ""
 	case 1:
@@ -216,6 +216,35 @@ func GenBatchManyFields(t *rapid.T, sc *Scenario) Batch {
 			}
 		}
 		b = append(b, doc)
+	}
+	return b
+}
+
+// incompressible returns n bytes that zstd cannot shrink (a deterministic
+// function of seed; no RNG of our own is consulted at run time).
+func incompressible(n int, seed uint64) string {
+	b := make([]byte, n)
+	x := seed*2862933555777941757 + 3037000493
+	for i := range b {
+		x ^= x << 13
+		x ^= x >> 7
+		x ^= x << 17
+		b[i] = byte(x >> 32)
+	}
+	return string(b)
+}
+
+// GenBatchBig draws a handful of documents whose stored values are large and
+// incompressible: a stored chunk, and the whole data section, beyond 1 MiB.
+func GenBatchBig(t *rapid.T, sc *Scenario) Batch {
+	n := rapid.IntRange(2, 6).Draw(t, "nDocs")
+	size := rapid.SampledFrom([]int{300 << 10, 600 << 10, 1100 << 10}).Draw(t, "valueSize")
+	b := make(Batch, n)
+	for i := range b {
+		b[i].Fields = append(b[i].Fields, Field{Name: "a", Len: 1, DV: sc.Schema["a"] == dvAlways, Terms: []Term{{T: fmt.Sprintf("t%d", i%2), Freq: 1}}})
+		if i%2 == 0 || i == n-1 {
+			b[i].Fields = append(b[i].Fields, Field{Name: "title", Store: true, Value: incompressible(size, uint64(i+1)*uint64(size))})
+		}
 	}
 	return b
 }
